@@ -180,3 +180,29 @@ claim(
     TB, "sibling agreement of slot-lookup sites (per-arm callee sets), payload-field use analysis per match arm, bounded evaluation of the extracted lexer / comment-lexer models, name-template dataflow",
     "DESIGN.md §2 C16",
 )
+
+
+# ---- clauses added in round 7 (appended to the claim texts above)
+_R7 = {
+    "C01": " Also: the VM's jump-table index is the plain wrapped difference (a scrutinee below the smallest literal takes the default arm as on WASM); scratch locals of the WASM generator are written before they are read in each lowering arm, function-scoped slots are not clobbered.",
+    "C03": " Also: scratch-local discipline of the WASM generator (the entry function's saved allocator pointer is not overwritten by runtime allocations).",
+    "C05": " Also: def-before-use of the WASM generator's scratch locals per lowering arm; save / restore of activation fields in the runtimes on every exit.",
+    "C06": " Also: the function that installs a state buffer into the new WASM engine installs the whole buffer (no in-place copy bounded by the old length).",
+    "C07": " Also: the planner scores every pair of children; the hand-written layout equality compares lengths, not a zipped prefix.",
+    "C08": " Also: the planner scores every (old child, new child) pair (ranges 0..len, no narrowing adaptors, recursion through helpers followed); equality of call nodes compares lengths.",
+    "C09": " Also: no arm of the quote translation hands a translated child back in place of the node under a test of the child's form; typed lifting never reaches the untyped word-to-code guess without a positive array lookup; walkers over match patterns descend into nested patterns.",
+    "C10": " Also: made-up binder names that are spellable identifiers (invented-names), match-pattern walkers descend, quoted blocks keep their block.",
+    "C11": " Also: the 64-bit sample counter is not narrowed on the way to `now`; every guarded retain / release in the MIR generator asks about closures and boxed values alike (a closure handed to `@` is retained for the task).",
+    "C12": " Also: the scope-exit release of a binding does not depend on whether a continuation follows; guarded retain / release sites ask the same type predicates.",
+    "C13": " Also: wrapping from a marker moves every child parsed since the marker.",
+    "C14": " Also: trivia read in a printer loop is written in the same iteration or flushed after the loop; a comment cannot hide a line break from the parser.",
+    "C15": " Also: set-algebra iterations and ordered maps keyed by a shared interner id are classified like hash iterations.",
+    "C16": " Also: sub-patterns are typed with their own type, not the annotation of the enclosing pattern; parenthesised assignments keep both halves; the parser's line-break scan looks past comments.",
+    "C17": " Also: a redefinition overwrites the visibility / module context of the earlier definition; the resolver's binder collection descends into nested match patterns.",
+    "C18": " Also: word cursors of the ABI walkers advance by the width of what was read; the runtime template restores the caller's function state on every exit; string literals of the program are not rewritten in generated lines.",
+    "C19": " Also: iterations over ordered collections keyed by `Symbol` (process-wide interner index).",
+    "C20": " Also: every encoder and decoder runs bincode under the same wire configuration; derived serializers write every field / variant.",
+}
+for _pid, _txt in _R7.items():
+    if _pid in CLAIMS:
+        CLAIMS[_pid]["text"] += _txt
